@@ -64,11 +64,87 @@ func main() {
 	funcs := flag.String("funcs", "", "comma-separated functions: F, (T).M, (*T).M or T.M")
 	cfgPath := flag.String("config", "", "JSON config (oracles, fields, abstract_params, assume_const_vars, harness)")
 	harness := flag.String("harness", "", "also write a Go validation harness (package-internal file) to this path")
+	rejectList := flag.String("reject-list", "", "testing aid: file with lines `funcs|config|substring`; each entry must be refused with a message containing the substring (package loaded once; nothing is written)")
 	flag.Parse()
+	if *rejectList != "" {
+		os.Exit(runRejectList(*dir, *tags, *rejectList))
+	}
 	if err := run(*dir, *tags, *module, *out, *funcs, *cfgPath, *harness); err != nil {
 		fmt.Fprintln(os.Stderr, "go2coq: error:", err)
 		os.Exit(1)
 	}
+}
+
+func readConfig(cfgPath string) (*Config, error) {
+	cfg := &Config{}
+	if cfgPath != "" {
+		data, err := os.ReadFile(cfgPath)
+		if err != nil {
+			return nil, err
+		}
+		dec := json.NewDecoder(strings.NewReader(string(data)))
+		dec.DisallowUnknownFields()
+		if err := dec.Decode(cfg); err != nil {
+			return nil, fmt.Errorf("config %s: %v", cfgPath, err)
+		}
+	}
+	return cfg, nil
+}
+
+// runRejectList: every entry must fail to translate, with the expected message.
+func runRejectList(dir, tags, list string) int {
+	data, err := os.ReadFile(list)
+	if err != nil {
+		fmt.Fprintln(os.Stderr, "go2coq: error:", err)
+		return 1
+	}
+	ld, err := loadPackage(dir, tags)
+	if err != nil {
+		fmt.Fprintln(os.Stderr, "go2coq: error:", err)
+		return 1
+	}
+	bad := 0
+	for _, line := range strings.Split(string(data), "\n") {
+		line = strings.TrimSpace(line)
+		if line == "" || strings.HasPrefix(line, "#") {
+			continue
+		}
+		parts := strings.SplitN(line, "|", 3)
+		if len(parts) != 3 {
+			fmt.Printf("FAIL reject: malformed line %q\n", line)
+			bad++
+			continue
+		}
+		cfgPath := ""
+		if parts[1] != "" {
+			cfgPath = filepath.Join(filepath.Dir(list), parts[1])
+		}
+		err := func() error {
+			cfg, err := readConfig(cfgPath)
+			if err != nil {
+				return err
+			}
+			tr, err := NewTranslator(ld, cfg, splitFuncs(parts[0]))
+			if err != nil {
+				return err
+			}
+			return tr.Translate()
+		}()
+		switch {
+		case err == nil:
+			fmt.Printf("FAIL reject %s: was accepted\n", parts[0])
+			bad++
+		case !strings.Contains(err.Error(), parts[2]):
+			fmt.Printf("FAIL reject %s: refused with an unexpected message: %v (wanted: %s)\n", parts[0], err, parts[2])
+			bad++
+		default:
+			fmt.Printf("OK reject %s (%s)\n", parts[0], parts[2])
+		}
+	}
+	if bad > 0 {
+		return 1
+	}
+	return 0
 }
 
 func run(dir, tags, module, out, funcs, cfgPath, harness string) error {
@@ -82,17 +158,9 @@ func run(dir, tags, module, out, funcs, cfgPath, harness string) error {
 	if module != base || !strings.HasSuffix(out, ".v") {
 		return fmt.Errorf("-module %s does not match output file %s (Coq derives the module name from the file name)", module, out)
 	}
-	cfg := &Config{}
-	if cfgPath != "" {
-		data, err := os.ReadFile(cfgPath)
-		if err != nil {
-			return err
-		}
-		dec := json.NewDecoder(strings.NewReader(string(data)))
-		dec.DisallowUnknownFields()
-		if err := dec.Decode(cfg); err != nil {
-			return fmt.Errorf("config %s: %v", cfgPath, err)
-		}
+	cfg, err := readConfig(cfgPath)
+	if err != nil {
+		return err
 	}
 	ld, err := loadPackage(dir, tags)
 	if err != nil {
